@@ -99,6 +99,7 @@ class Engine:
         self.covers = []  # (name, pc) reachability checks
         self.hooks_fired = set()
         self.cuts_fired = set()
+        self.assumed_contracts = set()
 
     # ------------------------------------------------------------------
     # helpers
@@ -812,6 +813,9 @@ class Engine:
             return Val(py=("classattr", base.py[1], at), ref="class:%s.%s" % (base.py[1], at))
         if base.ref is not None:
             return self.lookup(st, base.ref + "." + at)
+        if base.num is not None and base.arr is None and at in ("size", "ndim", "shape"):
+            # NumPy scalar (T2): size 1, ndim 0
+            return Val.of_num(N(1)) if at == "size" else (Val.of_num(N(0)) if at == "ndim" else Val.of_tup([]))
         if at in ("shape", "size", "ndim"):
             return Val.fresh(at)
         return Val.fresh("attr_" + at)
